@@ -41,11 +41,22 @@ def _ray(h, w, y, x, d):
 
 def gen_problem(rng, tier):
     h, w = rng.choice(_SHAPES)
+    return _gen(rng, h, w)
+
+
+def extra_program_problems(rng):
+    """Larger boards for the program correspondence only (nothing is enumerated there): one non-square medium board and two
+    with more than 256 cells (a tall and a wide one); shaded cells and arrow clues are read off
+    a random loop (`_loop.random_loop`) that leaves a fifth to a third of the cells free."""
+    return [_gen(rng, h, w, _loop.random_loop(rng, h, w, rng.choice([0.65, 0.8]))) for h, w in _loop.big_shapes(rng)]
+
+
+def _gen(rng, h, w, a=None):
     pb = [[".."] * w for _ in range(h)]
-    mode = rng.random()
+    mode = rng.random() if a is None else 0.0
     if mode < 0.75:
-        loops = _loop.single_loops(h, w)
-        a = rng.choice(loops)
+        if a is None:
+            a = rng.choice(_loop.single_loops(h, w))
         seen = _loop.trace_loop(_loop.active_edges(a, h, w))
         rest = [(y, x) for y in range(h) for x in range(w) if (y, x) not in seen]
         rng.shuffle(rest)
